@@ -92,21 +92,32 @@ def rule_tla(r):
 
 def make_cfgs(quick):
     """list of dict(rules=[pool indices], scheme, policy, nao)"""
-    pairs = [list(p) for p in itertools.permutations(range(len(RULE_POOL)), 2)]
+    n = len(RULE_POOL)
+    singles = [[i] for i in range(n)]
+    pairs = [list(p) for p in itertools.permutations(range(n), 2)]
+    triples = [list(p) for p in itertools.permutations(range(n), 3)]
+    allopts = [(s, p, nao) for s in SCHEMES for p in POLICIES for nao in (False, True)]
+    someopts = [(s, 'keep', False) for s in SCHEMES] + [('braces', p, nao) for p in POLICIES for nao in (False, True)]
+    cfgs = []
+
+    def add(lists, opts, per):
+        for k, rl in enumerate(lists):
+            sel = opts if per is None else [opts[(k * per + j) % len(opts)] for j in range(per)]
+            for (s, p, nao) in sel:
+                cfgs.append(dict(rules=rl, scheme=s, policy=p, nao=nao))
     if quick:
         pairs = pairs[::2] + [p for p in pairs[1::2] if 6 in p][:6]      # every second ordered pair; the nested-run rule more often
-    lists = [[i] for i in range(len(RULE_POOL))] + pairs
-    if not quick:
-        lists += [list(p) for p in itertools.permutations(range(len(RULE_POOL)), 3)][::3]
-    lists.append([])
-    opts = [(s, 'keep', False) for s in SCHEMES] + [('braces', p, n) for p in POLICIES for n in (False, True)]
-    if not quick:
-        opts = [(s, p, n) for s in SCHEMES for p in POLICIES for n in (False, True)]
-    cfgs = []
-    for k, rl in enumerate(lists):
-        sel = opts if (not quick or k % 3 == 0) else [opts[(k + j) % len(opts)] for j in range(4)]
-        for (s, p, n) in sel:
-            cfgs.append(dict(rules=rl, scheme=s, policy=p, nao=n))
+        lists = singles + pairs
+        for k, rl in enumerate(lists):
+            sel = someopts if k % 3 == 0 else [someopts[(k + j) % len(someopts)] for j in range(4)]
+            for (s, p, nao) in sel:
+                cfgs.append(dict(rules=rl, scheme=s, policy=p, nao=nao))
+        add([[]], someopts, None)
+    else:
+        add(singles, allopts, None)          # every rule alone under all 50 option sets
+        add(pairs, allopts, 12)              # every ordered pair under 12 rotating option sets
+        add(triples[::6], allopts, 6)        # every sixth ordered triple under 6 rotating option sets
+        add([[]], allopts, None)
     return cfgs
 
 
